@@ -38,6 +38,27 @@ def registry_getters(db):
     return tuple(out)
 
 
+def registry_getters_safe(db):
+    """registry_getters for databases in *any* state a registration history can produce: a getter that
+    raises is recorded (class name) instead of aborting the snapshot."""
+
+    def g(f, *a):
+        try:
+            r = f(*a)
+            return tuple(r) if isinstance(r, list) else (repr(r) if isinstance(r, float) else r)
+        except RecursionError:
+            return ("raised", "RecursionError")
+        except Exception as e:
+            return ("raised", type(e).__name__)
+
+    out = []
+    for qt in list(db.GetQuantityTypes()):
+        out.append((qt, g(db.GetUnits, qt), g(db.GetUnitNames, qt), g(db.GetBaseUnit, qt)))
+    for c in sorted(db.IterCategories()):
+        out.append((c, g(db.GetCategoryQuantityType, c), g(db.GetValidUnits, c), g(db.GetDefaultUnit, c), g(db.GetDefaultValue, c)))
+    return tuple(out)
+
+
 def diff(a, b, limit=3):
     """Short description of where two snapshots differ."""
     out = []
